@@ -63,7 +63,11 @@ pub fn run(args: &Args) {
         vh::log(vh::INV, tb, d, 0, true);
         if lockstep {
           gate.fetch_add(1, std::sync::atomic::Ordering::SeqCst);
-          while gate.load(std::sync::atomic::Ordering::SeqCst) < (step + 1) * nthreads { std::hint::spin_loop(); }
+          let mut spins = 0u32;
+          while gate.load(std::sync::atomic::Ordering::SeqCst) < (step + 1) * nthreads {
+            spins += 1;
+            if spins > 2000 { std::thread::yield_now(); } else { std::hint::spin_loop(); }
+          }
         }
         let r = guarded(|| {
           if tb == vh::TABLE_LAYER && (t + step) % 2 == 1 {
